@@ -416,6 +416,27 @@ def e_colliding_defaults_tuple_key(rng, m):
     return "defaults collide under a tuple-valued key type (%s)" % kt
 
 
+def e_colliding_defaults_reentrant_key_type(rng, m):
+    # the key type is an application function that lower-cases - and loads
+    # a schema of its own while it does so; 'Alpha' and 'ALPHA' are one key
+    names = [t["name"] for t in m["types"]]
+    if "colreload" in names:
+        return None
+    a, b = rng.choice([("Alpha", "ALPHA"), ("alpha", "Alpha"),
+                       ("B", "b")])
+    m["types"].append({"kind": "section", "name": "colreload",
+                       "keytype": "zcverif_dt.fam.kt_reload",
+                       "datatype": None, "extends": None,
+                       "implements": None, "children": [
+                           {"kind": "key", "name": "+",
+                            "attribute": "colmap", "datatype": "string",
+                            "required": False, "handler": None,
+                            "default": None,
+                            "defaults": [[a, "1"], ["other", "x"],
+                                         [b, "2"]]}]})
+    return "defaults collide under a key type that loads a schema itself"
+
+
 def e_bad_names(rng, m):
     cs, _ = conts(m)
     k = rng.choice(["typename", "keyname", "attribute", "getSection",
@@ -670,7 +691,8 @@ EDITS = [e_empty_references, e_inside_text_element, e_more_names, e_dup_type, e_
          e_import_src_redefines,
          e_keyed_default_on_plain, e_unkeyed_default_on_wild,
          e_colliding_defaults, e_colliding_defaults_derived,
-         e_colliding_defaults_tuple_key, e_bad_names,
+         e_colliding_defaults_tuple_key,
+         e_colliding_defaults_reentrant_key_type, e_bad_names,
          e_bad_names, e_nesting, e_nesting, e_multikey_default_attr,
          e_import, e_missing_attr, e_section_of_schema]
 
